@@ -47,13 +47,19 @@ Slop3Diag(c, e) ==
       live == {i \in 1..Len(c.docs) : c.docs[i].id \notin del}
       Lo == {c.docs[i].id : i \in {j \in live : PhraseExact(Vals(c.docs[j], e.q.f), e.q.ts)}}
       Up == {c.docs[i].id : i \in {j \in live : WithinBudget(Vals(c.docs[j], e.q.f), e.q.ts, e.q.slop)}}
-      Obs == SeqSet(e.res[1].docset)
       T == e.res[1].filter_ge
-      F == {x \in Obs : \E k \in 1..Len(c.docs[x + 1].num) : c.docs[x + 1].num[k] >= T} IN
-  IF ~(Lo \subseteq Obs /\ Obs \subseteq Up)
-  THEN <<1, "phrase with slop over 3+ terms: answer outside [exact phrase, some assignment within the slop budget]", Cardinality(Lo)>>
-  ELSE LET b == FirstBadRes(e.res, Obs, F, 1) IN
-       <<b[1], IF b[1] = 0 THEN "ok" ELSE b[2] \o " (differs from DocSetCollector on a phrase with slop over 3+ terms)", Cardinality(Obs)>>
+      Obs(k) == SeqSet(e.res[k].docset)
+      FOf(O) == {x \in O : \E k \in 1..Len(c.docs[x + 1].num) : c.docs[x + 1].num[k] >= T}
+      \* per segmentation: the bounds, then every collector path against the DocSetCollector answer of the same index
+      bad == {k \in 1..Len(e.res) : ~(Lo \subseteq Obs(k) /\ Obs(k) \subseteq Up) \/ BadField(e.res[k], Obs(k), FOf(Obs(k))) # "ok"} IN
+  IF bad # {}
+  THEN LET k == CHOOSE x \in bad : \A y \in bad : x <= y IN
+       IF ~(Lo \subseteq Obs(k) /\ Obs(k) \subseteq Up)
+       THEN <<k, "phrase with slop over 3+ terms: answer outside [exact phrase, some assignment within the slop budget]", Cardinality(Lo)>>
+       ELSE <<k, BadField(e.res[k], Obs(k), FOf(Obs(k))) \o " (differs from DocSetCollector on a phrase with slop over 3+ terms)", Cardinality(Obs(k))>>
+  ELSE IF \E k \in 2..Len(e.res) : Obs(k) # Obs(1)
+  THEN <<CHOOSE k \in 2..Len(e.res) : Obs(k) # Obs(1), "segmentation (the answer of a phrase with slop over 3+ terms differs between segmentations of the same documents)", Cardinality(Obs(1))>>
+  ELSE <<0, "ok", Cardinality(Obs(1))>>
 
 SearchDiag(c, e) ==
   IF IsSlopPhrase3(e.q) THEN Slop3Diag(c, e) ELSE
